@@ -37,8 +37,20 @@ func vhDstType(tag string) string { return vPick(tag, "MATERIALS", "PRODUCTS", "
 func vhDstName(tag string) string { return vPick(tag, "s", "o", "x") }
 
 // vhRule draws one rule; the rule kind is a case split, operands are symbolic.
+var vhRuleMenu int // 0: all 12 kinds; 1: reduced menu (ALLOW, REQUIRE, DISALLOW, malformed, MATCH with source prefix)
+
 func vhRule(tag string) []string {
-	switch vChoice(tag+".kind", 10) {
+	k := 0
+	if vhRuleMenu == 1 {
+		k = []int{0, 2, 1, 10, 7}[vChoice(tag+".kind", 5)]
+	} else {
+		k = vChoice(tag+".kind", 12)
+	}
+	switch k {
+	case 10:
+		return []string{"FROBNICATE", vhPattern(tag + ".pat")}
+	case 11:
+		return []string{"ALLOW", vhPattern(tag + ".pat"), "extra"}
 	case 0:
 		return []string{"ALLOW", vhPattern(tag + ".pat")}
 	case 1:
@@ -239,6 +251,10 @@ func vh_C03_rules_twin(a []int) {
 
 func vhC03(a []int, twin bool) {
 	nm, np, no, rm, rp, kind, term := a[0], a[1], a[2], a[3], a[4], a[5], a[6]
+	vhRuleMenu = 0
+	if len(a) > 7 {
+		vhRuleMenu = a[7]
+	}
 	mats := vhArtifacts("mat", nm)
 	prods := vhArtifacts("prod", np)
 	omats := vhArtifacts("omat", no)
